@@ -810,6 +810,9 @@ type mismatch struct {
 type evalStats struct {
 	Evals, True, False, Undecided int
 	FactsDep                      int // extension "facts": verdicts that differ from the one over the groups at context load
+	// round 4, checks executed without ReadStates: the reference has no verdict (must fail) /
+	// accepts a verdict or a failure / has a verdict (must not fail)
+	NoRSNone, NoRSEither, NoRSVerdict int
 	Contexts                      map[string]struct{}
 	Classes                       map[string]struct{}
 }
@@ -874,6 +877,15 @@ func judge(b *built, ref []signer, ncfg int, trace []obs, state vmstate.State, f
 			}
 		}
 		want := witnessed(ref, w, acc)
+		// three-valued reference: without ReadStates no group of any contract can be read
+		w.CurUnreadAll = !f.Eff.Has(callflag.ReadStates)
+		w.CallUnreadAll = w.CurUnreadAll
+		allowed := witnessed3(ref, w, acc)
+		if !w.CurUnreadAll && allowed != b2o(want) || allowed&b2o(!want) != 0 {
+			// the two references are one predicate: a verdict of the three-valued one is the two-valued answer
+			out = append(out, mismatch{What: "harness-references-disagree", Frame: e.Frame, Query: e.Q.Label, Slot: slot, Got: outcomeNames(allowed), Want: fmt.Sprint(want), Where: desc})
+			continue
+		}
 		st.Evals++
 		if e.Facts != nil && e.dependsOnChange(b, ref, acc, want) {
 			st.FactsDep++
@@ -881,24 +893,34 @@ func judge(b *built, ref []signer, ncfg int, trace []obs, state vmstate.State, f
 		if st.Contexts != nil {
 			st.Contexts[e.Sit] = struct{}{}
 		}
-		if o.Res == 2 {
-			if !f.Eff.Has(callflag.ReadStates) {
-				st.Undecided++ // the property is silent about checks without ReadStates that need a manifest
-				st.class(e.Cls + "error-without-ReadStates")
-				continue
+		if w.CurUnreadAll && slot >= 0 { // enumerated signers only (the other queries never need a manifest)
+			switch {
+			case allowed == oNone:
+				st.NoRSNone++
+			case allowed&oNone != 0:
+				st.NoRSEither++
+			default:
+				st.NoRSVerdict++
 			}
-			out = append(out, mismatch{What: "check-failed", Frame: e.Frame, Query: e.Q.Label, Slot: slot, Got: "error", Want: fmt.Sprint(want), Where: desc, Detail: o.Err})
+		}
+		if allowed&(1<<o.Res) == 0 {
+			m := mismatch{What: "result-differs", Frame: e.Frame, Query: e.Q.Label, Slot: slot, Got: resName(o.Res), Want: outcomeNames(allowed), Where: desc}
+			if o.Res == 2 {
+				m.What, m.Detail = "check-failed", o.Err
+			}
+			out = append(out, m)
 			continue
 		}
-		if want {
+		switch {
+		case o.Res == 2:
+			st.Undecided++ // no verdict: the check needs a manifest it cannot read
+			st.class(e.Cls + "error-without-ReadStates")
+		case want:
 			st.True++
 			st.class(e.Cls + "true")
-		} else {
+		default:
 			st.False++
 			st.class(e.Cls + "false")
-		}
-		if (o.Res == 1) != want {
-			out = append(out, mismatch{What: "result-differs", Frame: e.Frame, Query: e.Q.Label, Slot: slot, Got: resName(o.Res), Want: fmt.Sprint(want), Where: desc})
 		}
 	}
 	if len(trace) > len(b.Expect) {
